@@ -7,6 +7,14 @@ f^-alpha to about 1 dB between the corners".  That sentence is only PROBED here 
 documented tolerance `ripple_tol_db` below (measured worst deviation on the unchanged tree + 50 %).
 Besides freshly parameterised generators the oracle runs CALL HISTORIES (several generators sharing some parameters in one process, see
 "call histories" below; witness: seeded C18c, coefficients memoised without the sampling rate) and back-to-back band_limited_noise siblings.
+
+Sizes and options (class-level widening): fftnoise / band_limited_noise / white_noise.get_series at LONG and awkward lengths (around every integer
+constant mined from the current noise.py, 2^k, 2^k +- 1, primes, 70 001, 1 100 003; whole DFT + a spread of bins from the definition; bands placed in
+every part of the spectrum incl. the last bins and a hair beside grid frequencies on fine grids; variance window by window incl. the last samples);
+the design parameters at the ENDS of their ranges every run (alpha 0.01 / 2, fmax/fmin 1.01 .. 1e8, fmax/fs up to 1/2, fs 1e-3 .. 1e9, bands around
+1 Hz); all four generator classes through every CONSTRUCTION FORM (positional / keyword / mixed, init_filter given / default, seed forms, int / float /
+np.float64 arguments); and the LEVEL predicate (mid-band and 1 Hz against f^-alpha, same envelope as the ripple probe, D13 unchanged) evaluated with
+scipy.signal.freqz from the coefficient arrays of every generator any of these streams constructs (check_level_freqz, first thing in check_alpha).
 """
 from __future__ import annotations
 
@@ -64,7 +72,10 @@ ASSUMPTIONS = [
     "pitches inside the corners: <= 0.81 dB for alpha <= 1.9, 1.13 dB at alpha = 2)",
     "the cascade product formula and the corner placement (log-equispaced, alpha/4 offsets, ratio 10^(dp alpha/2)) are checked numerically "
     "against the real coefficients, per-section response by theorem",
-    "white-noise variance psd*fs: the scale is checked exactly, the sample variance statistically (6 sigma)",
+    "white-noise variance psd*fs: the scale is checked exactly, the sample variance statistically (6 sigma; long requests also per eighth and over the last 1000-4096 samples)",
+    "sizes: lengths beyond ~1.3e6 (quick) / 4.4e6 (thorough, or when an obligation broke) are not synthesised; thresholds are looked for around the integer constants "
+    "that appear literally in noise.py and at the fixed long sizes listed in RULE",
+    "red_noise: C18 states no formula for it; only that its design does not depend on the construction form / history is demanded",
     "theorems are over the reals; rounding is covered by the stated forward tolerances",
     "history independence is probed, not proved: generated call histories (see RULE) in the check's own process; the fresh-state reference is the library itself, "
     "run in a forked child of a helper interpreter that has only imported speckit (skipped with a note when the helper cannot be started; red_noise members are then unchecked)",
@@ -81,7 +92,14 @@ RULE = ("alpha: (fs, fmin, fmax, alpha) with alpha in [0.01,2] (incl. both ends,
         "128..1024 with every input kind, N < 2 and every validation failure, the 1e-12 Nyquist allowance from both sides; NumPy contracts (slices: all (n <= 7, start, stop, "
         "step in {1,-1,2,-3}); fftfreq bit-exact; ifft) on their own. band_limited_noise: odd/even N, bands with edges on grid "
         "frequencies (exact binary grids), min_freq = 0, max_freq = Nyquist, single-bin and empty bands; distinct by (N, edge class); non-trivial = at least one bin "
-        "inside and one outside the band. white_noise: (fs, psd, seed), distinct by (fs, psd).")
+        "inside and one outside the band. white_noise: (fs, psd, seed), distinct by (fs, psd). "
+        "long / awkward sizes (fftnoise, band_limited_noise, white_noise.get_series): c-1, c, c+1, c+17, 2c+3 around every integer constant of the CURRENT speckit/noise.py "
+        "(common.mined_sizes), 70001, 65535..65537, 131071, 131074, 1100003, 2^20 and one of {2^20+-1, 1000003, 524287, 786433} by seed (all of them, 2^21+3 and more when an "
+        "obligation broke / thorough), random primes, 2 x prime, odd; fftnoise input kinds 0..8 cycled (8 = complex64, 7 = integer magnitudes), a third of the cases called a "
+        "second time on the same array; band edges: 12 placements (last bins, around c and behind the last whole block of c bins, DC, hair-width beside grid frequencies on "
+        "1e-8 Hz grids, nearly everything), all 12 at every size <= 10000; distinct by (N, kind) / (N, edge class). "
+        "alpha extremes: product of {0.01, 2} x {1.01, 1e8} x fmax/fs {0.5, 0.4, 0.25, 1e-4} x fs {1e-3, 1e9}, 36 bands around 1 Hz, 80 random combinations of the full lists "
+        "(the full 2520-product in the thorough tier). forms: (class, call form, init_filter form, seed form, numeric type) cycled with co-prime periods, 60 per run; distinct by that tuple.")
 
 U = 2.0 ** -53
 LN10_10 = 10.0 / math.log(10.0)
@@ -257,6 +275,116 @@ ALPHA_CORPUS = [
 ]
 
 
+# design parameters at the ENDS of their ranges (the random generator above reaches them only by chance): exponent, fmax/fmin, fmax/fs, fs
+EXT_ALPHA = [0.01, 2.0, 1.0, 0.5, 1.99, 0.011, 1.5]
+EXT_RATIO = [1.01, 1e8, 1.1, 2.0, 31.6, 1e4, 1e6, 3e7]
+EXT_FRAC = [0.5, 0.4, 0.25, 1e-4, 0.499, 0.45, 0.3, 0.1, 1e-2]           # fmax / fs: up to fs/2 exactly (0.5 fs is exact in binary)
+EXT_FS = [1e-3, 1e9, 1.0, 44100.0, 2.5e6]
+
+
+def alpha_extreme_cases(rng: np.random.Generator, n_extra: int, full: bool = False) -> List[Dict[str, Any]]:
+    """(a) the full product of the two end values of each of (alpha, fmax/fmin) with fmax/fs in {1/2, 0.4, 1/4, 1e-4} and fs in {1e-3, 1e9}: 32 generators, every run;
+    (b) bands AROUND 1 Hz (so that the '1 at 1 Hz' clause is evaluated) for the end values of alpha and the ratio, 1 Hz near the lower corner / in the middle /
+    near the upper corner, fmax an appreciable fraction of fs and deeply oversampled; (c) n_extra random combinations of the whole lists (all of them when full)."""
+    out: List[Dict[str, Any]] = []
+
+    def mk(alpha, ratio, frac, fs):
+        fmax = frac * fs
+        return {"fs": float(fs), "fmin": float(fmax / ratio), "fmax": float(fmax), "alpha": float(alpha), "pink": bool(alpha == 1.0 and rng.integers(0, 2) == 0)}
+    for alpha in EXT_ALPHA[:2]:
+        for ratio in EXT_RATIO[:2]:
+            for frac in EXT_FRAC[:4]:
+                for fs in EXT_FS[:2]:
+                    out.append(mk(alpha, ratio, frac, fs))
+    for alpha in (0.01, 2.0, 1.0):
+        for ratio in (1.01, 1.5, 1e4, 1e8):
+            for th in (0.03, 0.5, 0.97):
+                fmin = float(ratio ** (-th))
+                fmax = fmin * ratio
+                frac = [0.5, 0.3, 1e-3][int(rng.integers(0, 3))]
+                out.append({"fs": float(fmax / frac), "fmin": fmin, "fmax": float(fmax), "alpha": float(alpha), "pink": bool(alpha == 1.0 and rng.integers(0, 2) == 0)})
+    if full:
+        for alpha in EXT_ALPHA:
+            for ratio in EXT_RATIO:
+                for frac in EXT_FRAC:
+                    for fs in EXT_FS:
+                        out.append(mk(alpha, ratio, frac, fs))
+    else:
+        for _ in range(n_extra):
+            out.append(mk(EXT_ALPHA[int(rng.integers(0, len(EXT_ALPHA)))], EXT_RATIO[int(rng.integers(0, len(EXT_RATIO)))],
+                          EXT_FRAC[int(rng.integers(0, len(EXT_FRAC)))], EXT_FS[int(rng.integers(0, len(EXT_FS)))]))
+    return out
+
+
+# ---- construction FORMS: the four generator classes through every way of calling their constructors
+FORM_CLASSES = ["alpha", "pink", "red", "alpha", "white", "pink"]
+FORM_CALLS = ["pos", "kw", "mixed", "allpos"]
+FORM_INITS = ["omit", True, False]                  # omitted = the default (True: the filter is settled with ceil(2 fs / fmin) samples)
+FORM_SEEDS = ["omit", None, 0, 12345, 2 ** 40 + 7]
+FORM_NUMS = ["float", "int", "np"]
+FORM_NAMES = {"alpha": ["f_sample", "f_min", "f_max", "alpha"], "pink": ["f_sample", "f_min", "f_max"], "red": ["f_sample", "f_min"], "white": ["f_sample", "psd"]}
+
+
+def form_case(rng: np.random.Generator, i: int) -> Dict[str, Any]:
+    """case i of the forms stream: class, call form, init_filter form, seed form and numeric type cycle with co-prime periods, so that a run of >= 60 cases
+    meets every (class, init_filter form) x seed form and every (class, call form); the design parameters are random, with fs/fmin bounded where the
+    constructor settles the filter (cost ~ 2 fs/fmin samples per section)."""
+    cls = FORM_CLASSES[i % len(FORM_CLASSES)]
+    call = FORM_CALLS[(i // 2) % len(FORM_CALLS)]
+    init = FORM_INITS[(i + i // 6) % len(FORM_INITS)]
+    seed = FORM_SEEDS[(i + i // 3) % len(FORM_SEEDS)]
+    num = FORM_NUMS[(i // 5) % len(FORM_NUMS)]
+    if call == "allpos" and (init == "omit" or seed == "omit") and cls != "white":
+        init = True if init == "omit" else init     # all-positional needs both trailing arguments
+        seed = 4321 if seed == "omit" else seed
+    settle = cls != "white" and init is not False
+    if num == "int":                                # integer-valued parameters passed as Python ints
+        fs, fmin, fmax = [(1000, 5, 500), (48000, 20, 20000), (64, 1, 32), (1000, 1, 100)][int(rng.integers(0, 4))]
+        alpha = [1, 2, 1, 2][int(rng.integers(0, 4))]
+        psd = int([1, 4, 1000][int(rng.integers(0, 3))])
+    else:
+        fs = float([1000.0, 2.0, 48000.0, 1e9, 1e-3, float(10.0 ** rng.uniform(-3, 9))][int(rng.integers(0, 6))])
+        frac = [0.5, 0.4, 0.25, 0.05, float(10.0 ** rng.uniform(-3, math.log10(0.5)))][int(rng.integers(0, 5))]
+        fmax = frac * fs
+        rmax = min(1e8, 9e4 * frac) if settle else 1e8        # settled: fs/fmin = ratio/frac <= 9e4
+        ratio = min(rmax, [1.01, 3.0, 100.0, 1e4, 1e8, float(10.0 ** rng.uniform(0.005, 8))][int(rng.integers(0, 6))])
+        ratio = max(ratio, 1.01)
+        fmin = fmax / ratio
+        alpha = [0.01, 2.0, 1.0, 0.5, 1.5, float(rng.uniform(0.01, 2.0))][int(rng.integers(0, 6))]
+        psd = float(10.0 ** rng.uniform(-6, 6))
+    return {"kind": "form", "cls": cls, "call": call, "init": init, "seed": seed, "num": num, "fs": fs, "fmin": fmin, "fmax": fmax,
+            "alpha": 1.0 if cls == "pink" else (2.0 if cls == "red" else alpha), "psd": psd}
+
+
+def _form_num(v, how: str):
+    if how == "int" and float(v).is_integer():
+        return int(v)
+    if how == "np":
+        return np.float64(v)
+    return float(v)
+
+
+def form_build(s: Dict[str, Any]):
+    """the constructor call the form describes (positional / keyword / mixed / all-positional, init_filter and seed given or left to their defaults)"""
+    noise = _noise()
+    cls = s["cls"]
+    K = {"alpha": noise.alpha_noise, "pink": noise.pink_noise, "red": noise.red_noise, "white": noise.white_noise}[cls]
+    names = FORM_NAMES[cls]
+    vals = {"f_sample": s["fs"], "f_min": s["fmin"], "f_max": s["fmax"], "alpha": s["alpha"], "psd": s["psd"]}
+    args = [_form_num(vals[nm], s["num"]) for nm in names]
+    if s["call"] == "allpos":
+        if cls == "white":
+            return K(*args, *([] if s["seed"] == "omit" else [s["seed"]]))
+        return K(*args, bool(s["init"]), s["seed"])
+    npos = {"pos": len(names), "kw": 0, "mixed": 1}[s["call"]]
+    kw = dict(zip(names[npos:], args[npos:]))
+    if cls != "white" and s["init"] != "omit":
+        kw["init_filter"] = bool(s["init"])
+    if s["seed"] != "omit":
+        kw["seed"] = s["seed"]
+    return K(*args[:npos], **kw)
+
+
 def fft_case(rng: np.random.Generator, N: int, kind: Optional[int] = None) -> Dict[str, Any]:
     kind = int(rng.integers(0, 7)) if kind is None else kind
     scale = float(10.0 ** rng.uniform(-3, 3))
@@ -278,7 +406,62 @@ def fft_case(rng: np.random.Generator, N: int, kind: Optional[int] = None) -> Di
         f[0] = 1j * abs(f[0])
         if N % 2 == 0:
             f[N // 2] = 1j * abs(f[N // 2])
+    elif kind == 7:                                 # an INTEGER magnitude vector (only requested explicitly: the default draw stays 0..6)
+        f = np.floor(np.abs(f.real) / scale * 3.0) + 0j      # small non-negative integers, many zeros, not mirror-symmetric
+        dtype = "int64"
+    elif kind == 8:                                 # single-precision complex spectrum (the prescription is the value as stored: exact in double)
+        f = f.astype(np.complex64).astype(complex)
+        dtype = "complex64"
     return {"N": int(N), "kind": kind, "dtype": dtype, "f": f, "seed": int(rng.integers(0, 2 ** 31)), "rng_none": bool(rng.integers(0, 8) == 0)}
+
+
+def fft_case_from_seed(gseed: int, N: int, kind: int) -> Dict[str, Any]:
+    """a case that is a pure function of (gseed, N, kind): long spectra are replayed from these three numbers instead of a stored vector"""
+    c = fft_case(np.random.default_rng([int(gseed), int(N), int(kind)]), int(N), kind=int(kind))
+    c["gseed"] = int(gseed)
+    c["rng_none"] = False
+    return c
+
+
+def _is_prime(n: int) -> bool:
+    if n < 2:
+        return False
+    if n % 2 == 0:
+        return n == 2
+    r = int(math.isqrt(n))
+    return all(n % d for d in range(3, r + 1, 2))
+
+
+def next_prime(n: int) -> int:
+    while not _is_prime(n):
+        n += 1
+    return n
+
+
+def mined_constants() -> List[int]:
+    """integer constants of the CURRENT speckit/noise.py (buffer / chunk / block sizes: where "for all lengths" breaks)"""
+    try:
+        return [int(v) for v in C.mined_sizes(["speckit/noise.py"])]
+    except Exception:
+        return []
+
+
+def size_probes(consts: List[int], cap: int) -> List[int]:
+    """c-1, c, c+1, c+17, 2c+3 around every mined constant, as far as affordable"""
+    out: List[int] = []
+    for c in consts:
+        for n in (c - 1, c, c + 1, c + 17, 2 * c + 3):
+            if 2 <= n <= cap and n not in out:
+                out.append(int(n))
+    return out
+
+
+# lengths well beyond the random generators: 2^k, 2^k +- 1, primes (65537, 131071, 524287, 1000003 are prime), an even number with a large prime factor,
+# 70 001 and 1 100 003.  LONG_SIZES_BIG cost 0.1 .. 1 s per synthesis + DFT: the quick tier takes 1 100 003, 2^20 and one more (by seed), the rest in the
+# thorough tier / when an obligation broke.
+LONG_SIZES_FIXED = [70001, 65535, 65536, 65537, 131071, 131074]
+LONG_SIZES_WIDE = [99991, 100000, 262145, 2 ** 18 - 1, 500000]
+LONG_SIZES_BIG = [1100003, 2 ** 20, 2 ** 20 + 1, 2 ** 20 - 1, 1000003, 524287, 786433]
 
 
 def band_case(rng: np.random.Generator) -> Dict[str, Any]:
@@ -327,6 +510,59 @@ def band_siblings(rng: np.random.Generator, c: Dict[str, Any]) -> List[Dict[str,
     return out
 
 
+BAND_LONG_MODES = 12
+
+
+def band_long_case(rng: np.random.Generator, N: int, mode: int, consts: List[int]) -> Dict[str, Any]:
+    """a band on a LONG or awkward grid with its edges placed so that every part of the spectrum is exercised: the last bins below Nyquist, the bins
+    around a mined block size c and around N - c, the region behind the last whole block, DC.  Edges sit half way between two grid frequencies
+    wherever possible, so that every bin is decided in any arithmetic (nothing is skipped as 'on an edge')."""
+    fs = float([1.0, 1000.0, 48000.0, 2.0 ** int(rng.integers(-6, 21)), 1e-3, 1e9, float(10.0 ** rng.uniform(-3, 9)), float(N)][int(rng.integers(0, 8))])
+    mode = int(mode) % BAND_LONG_MODES
+    if mode in (9, 10) and rng.integers(0, 4) != 0:
+        fs = [1e-3, 2.0 ** -10][int(rng.integers(0, 2))]   # hair-width edges mostly on a FINE grid (pitch 1e-8 Hz and below): an absolute closeness tolerance shows there
+    nyq = fs / 2.0
+    df = fs / N
+    half = N // 2
+    top = half if N % 2 == 0 else (N - 1) // 2          # highest non-negative-frequency bin
+    cs = [c for c in consts if 2 <= c < top - 2]
+    c0 = int(cs[int(rng.integers(0, len(cs)))]) if cs else max(2, top // 3)
+    if mode == 0:                                   # anywhere, half-integer edges
+        k0 = int(rng.integers(0, max(top - 1, 1)))
+        k1 = int(rng.integers(k0, max(top - 1, 1)))
+        lo, hi = (k0 + 0.5) * df, (k1 + 0.5) * df
+    elif mode == 1:                                 # the last three bins, up to Nyquist
+        lo, hi = (top - 2.5) * df, nyq
+    elif mode == 2:                                 # two bins just below the last one: the very last bin(s) must stay empty
+        lo, hi = (top - 2.5) * df, (top - 0.5) * df
+    elif mode == 3:                                 # three bins around a mined constant (and, mirrored, around N - c)
+        lo, hi = (c0 - 1.5) * df, (c0 + 1.5) * df
+    elif mode == 4:                                 # from just behind the last whole block of c bins to the top
+        k0 = (top // c0) * c0 + 1 if (top // c0) * c0 + 1 < top else top - 1
+        lo, hi = (k0 - 0.5) * df, nyq if rng.integers(0, 2) else (top - 0.5) * df
+    elif mode == 5:                                 # DC and the first bin only
+        lo, hi = 0.0, 1.5 * df
+    elif mode == 6:                                 # generic edges
+        lo, hi = sorted(float(v) for v in rng.uniform(0.0, nyq, size=2))
+    elif mode == 7:                                 # edges ON grid frequencies at high indices (edge bins themselves are left to rounding unless the grid is binary)
+        k0 = int(rng.integers(max(top // 2, 1), top + 1))
+        k1 = int(rng.integers(k0, top + 1))
+        lo, hi = k0 * df, k1 * df
+    elif mode == 8:                                 # the whole spectrum
+        lo, hi = 0.0, nyq
+    elif mode in (9, 10):                           # edges a hair (1e-4 of the grid pitch) beside grid frequencies at high indices: the two edge bins are just
+        k0 = int(rng.integers(max(top // 2, 1), top))     # OUTSIDE (9) / just INSIDE (10); decided in double up to N ~ 1e11, not by a tolerance unrelated to the grid
+        k1 = int(rng.integers(k0 + 1, top + 1))
+        h = 1e-4 if mode == 9 else -1e-4
+        lo, hi = (k0 + h) * df, (k1 - h) * df
+    else:                                           # nearly everything: all but DC, the first and the last bin (presence in every part of the spectrum)
+        lo, hi = 1.5 * df, (top - 0.5) * df
+    hi = float(min(max(hi, 0.0), nyq))
+    lo = float(min(max(lo, 0.0), hi))
+    exact = bool(N & (N - 1) == 0 and math.frexp(fs)[0] == 0.5)
+    return {"N": int(N), "fs": fs, "lo": lo, "hi": hi, "exact": exact, "edge_mode": 20 + mode, "seed": int(rng.integers(0, 2 ** 31)), "rng_none": False}
+
+
 BAND_CORPUS = [
     {"N": 4096, "fs": 1000.0, "lo": 10.0, "hi": 50.0, "exact": False, "edge_mode": 6, "seed": 1, "rng_none": False},     # docstring example
     {"N": 1024, "fs": 1.0, "lo": 0.0, "hi": 0.5, "exact": True, "edge_mode": 3, "seed": 2, "rng_none": False},
@@ -358,6 +594,70 @@ def _viol(P: C.Part, what: str, sig: Dict[str, Any], rep: Dict[str, Any]):
 
 def alpha_dump(c):
     return {"kind": "alpha", "fs": c["fs"], "fmin": c["fmin"], "fmax": c["fmax"], "alpha": c["alpha"], "pink": bool(c.get("pink"))}
+
+
+def freqz_density(g, f: np.ndarray) -> np.ndarray:
+    """two-sided density of the generator's output at f from its coefficient ARRAYS as they stand (every column of every row), evaluated with
+    scipy.signal.freqz section by section: (white variance / fs) * scaling^2 * prod |A_i(e^jw) / B_i(e^jw)|^2  (the property's `observe_at`)"""
+    from scipy import signal
+    A = np.atleast_2d(np.asarray(g._a_coeffs, dtype=float))
+    B = np.atleast_2d(np.asarray(g._b_coeffs, dtype=float))
+    w = 2.0 * np.pi * np.asarray(f, dtype=float) / float(g.fs)
+    H2 = np.ones(len(w))
+    for i in range(A.shape[0]):
+        _, h = signal.freqz(A[i], B[i], worN=w)
+        H2 = H2 * np.abs(h) ** 2
+    return float(g._whitenoise.rms) ** 2 / float(g.fs) * float(g._scaling) ** 2 * H2
+
+
+def check_level_freqz(P: C.Part, g, c: Dict[str, Any], rep: Dict[str, Any], pre: str = "") -> None:
+    """the LEVEL predicate of C18 on a constructed generator, whatever way it was constructed: the two-sided density computed with freqz from the
+    coefficient arrays, at mid-band sqrt(gen.fmin gen.fmax) and at 1 Hz when 1 Hz lies between the generator's corners, against f^-alpha.
+    Allowed: exactly what the ripple probe of check_alpha allows at the same frequency (1.5 x reference envelope, interior / near-corner column;
+    beyond the literal 1.25 dB but inside the envelope = known finding D13, same signature and the same cap of 4 reports per run)."""
+    fs, alpha = float(c["fs"]), float(c["alpha"])
+    try:
+        ge_lo, ge_hi = float(g.fmin), float(g.fmax)
+        n = int(np.atleast_2d(np.asarray(g._a_coeffs)).shape[0])
+        nyq = fs / 2.0
+        if not (0.0 < ge_lo <= ge_hi and n >= 1 and np.isfinite(ge_hi)):
+            return                                  # reported by check_alpha as 'no usable cascade'
+        fm = math.sqrt(ge_lo * ge_hi)
+        fp = [fm] if ge_lo < fm < min(ge_hi, nyq) else []
+        if ge_lo < 1.0 < ge_hi and 1.0 < nyq:
+            fp.append(1.0)
+        if not fp:
+            return
+        fp = np.array(fp)
+        S = freqz_density(g, fp)
+        _, relS = real_response(g, fp)              # conditioning of evaluating a first-order section at these frequencies (same bound as the probe)
+    except Exception as ex:
+        P.cases += 1
+        _viol(P, f"{pre}alpha_noise(fs={fs}, fmin={c['fmin']}, fmax={c['fmax']}, alpha={alpha}): the coefficient arrays cannot be evaluated with scipy.signal.freqz: {ex!r}",
+              {"sub": "level-freqz", "envelope": "beyond", "raises": True}, rep)
+        return
+    dp = (math.log10(c["fmax"]) - math.log10(c["fmin"])) / n
+    dev = LN10_10 * (np.log(S) + alpha * np.log(fp))
+    slack = LN10_10 * relS * 1.01
+    interior = (fp >= ge_lo * 10.0 ** (2 * dp)) & (fp <= ge_hi / 10.0 ** (2 * dp))
+    tol = np.where(interior, ripple_tol_db(alpha, True), ripple_tol_db(alpha, False)) + slack
+    P.cases += len(fp)
+    P.hit("alpha:level-freqz", len(fp))
+    if len(fp) == 2 or fp[0] == 1.0:
+        P.hit("alpha:level-freqz-1Hz")
+    bad = ~(np.abs(dev) <= tol)
+    if bad.any():
+        j = int(np.argmax(np.where(np.isfinite(dev), np.abs(dev) - tol, np.inf)))
+        _viol(P, f"{pre}alpha_noise(fs={fs}, fmin={c['fmin']}, fmax={c['fmax']}, alpha={alpha}): level from the coefficient arrays (scipy.signal.freqz): two-sided density at "
+                 f"f={float(fp[j])!r} Hz ({'1 Hz' if fp[j] == 1.0 else 'mid-band'}) is {float(S[j])!r}, f^-alpha = {float(fp[j] ** (-alpha))!r}: {dev[j]:+.3f} dB (allowed {tol[j]:.3f} dB; "
+                 f"{'interior' if interior[j] else 'near a corner'}; corners {ge_lo!r}..{ge_hi!r}, {n} sections)",
+              {"sub": "level-freqz", "at1Hz": bool(fp[j] == 1.0), "interior": bool(interior[j]), "envelope": "beyond"}, dict(rep, f=float(fp[j])))
+    elif (np.abs(dev) > STRICT_RIPPLE_DB + slack).any() and getattr(P, "_d13", 0) < 4:
+        j = int(np.argmax(np.abs(dev) - slack))
+        P._d13 = getattr(P, "_d13", 0) + 1
+        _viol(P, f"{pre}alpha_noise(fs={fs}, fmin={c['fmin']}, fmax={c['fmax']}, alpha={alpha}): two-sided density (freqz of the coefficient arrays) at f={float(fp[j])!r} Hz deviates from "
+                 f"f^-alpha by {dev[j]:+.3f} dB (> {STRICT_RIPPLE_DB} dB; {'interior' if interior[j] else 'near a corner'}; corners {ge_lo!r}..{ge_hi!r}, {n} sections)",
+              {"sub": "ripple", "interior": bool(interior[j]), "envelope": "within-reference"}, dict(rep, f=float(fp[j])))
 
 
 class _Impulse:
@@ -406,6 +706,7 @@ def check_alpha(P: C.Part, c: Dict[str, Any], nfreq: int = 192, impulse_max: int
         _viol(P, f"{pre}alpha_noise(fs={fs}, fmin={fmin_u}, fmax={fmax_u}, alpha={alpha}): no usable cascade (sections={n}, gen.fmin={ge_lo}, gen.fmax={ge_hi})",
               {"sub": "alpha-construct"}, rep)
         return
+    check_level_freqz(P, g, c, rep, pre)           # level at mid-band / 1 Hz from the coefficient arrays via freqz: for EVERY constructed generator, before anything returns
     if c.get("pink"):                              # glue: pink_noise is alpha_noise with alpha = 1
         g1 = _noise().alpha_noise(fs, fmin_u, fmax_u, 1.0, init_filter=False, seed=0)
         same = np.array_equal(g1._a_coeffs, g._a_coeffs) and np.array_equal(g1._b_coeffs, g._b_coeffs) and g1._scaling == g._scaling and g.alpha == 1.0
@@ -584,14 +885,100 @@ def check_alpha(P: C.Part, c: Dict[str, Any], nfreq: int = 192, impulse_max: int
 
 
 def fft_dump(c):
-    return {"kind": "fftnoise", "N": c["N"], "fkind": c["kind"], "dtype": c["dtype"], "f": cx_dump(c["f"]), "seed": c["seed"], "rng_none": c["rng_none"]}
+    if "gseed" in c and c["N"] > 2048:             # long spectrum: a pure function of (gseed, N, kind), see fft_case_from_seed
+        return {"kind": "fftnoise", "N": c["N"], "fkind": c["kind"], "dtype": c["dtype"], "gseed": c["gseed"], "seed": c["seed"], "rng_none": c["rng_none"],
+                "again": bool(c.get("again"))}
+    return {"kind": "fftnoise", "N": c["N"], "fkind": c["kind"], "dtype": c["dtype"], "f": cx_dump(c["f"]), "seed": c["seed"], "rng_none": c["rng_none"],
+            "again": bool(c.get("again"))}
 
 
-def check_fftnoise(P: C.Part, c: Dict[str, Any]) -> None:
+def fft_input(c: Dict[str, Any]) -> np.ndarray:
+    """the array handed to fftnoise, in the dtype the case asks for"""
+    f = np.asarray(c["f"])
+    dt = c["dtype"]
+    if dt == "float":
+        return np.array(f.real, dtype=float, copy=True)
+    if dt == "int64":
+        return np.array(np.rint(f.real), dtype=np.int64)
+    if dt == "complex64":
+        return np.array(f, dtype=np.complex64)
+    return np.array(f, dtype=complex, copy=True)
+
+
+def prescribed_magnitudes(keep: np.ndarray) -> np.ndarray:
+    """what C18 prescribes for |DFT(x)[k]|: |Re f[0]| at DC, |f[k]| on the positive side 1..Np and on its mirror N-k, |Re f[N/2]| at Nyquist (even N)"""
+    kc = np.asarray(keep).astype(complex)
+    N = len(kc)
+    Np = (N - 1) // 2
+    mag = np.zeros(N)
+    mag[0] = abs(kc[0].real)
+    mag[1:Np + 1] = np.abs(kc[1:Np + 1])
+    mag[N - np.arange(1, Np + 1)] = mag[1:Np + 1]
+    if N % 2 == 0:
+        mag[N // 2] = abs(kc[N // 2].real)
+    return mag
+
+
+def direct_dft(x: np.ndarray, bins: List[int]) -> Tuple[np.ndarray, float]:
+    """DFT of x at a few bins straight from the definition (independent of np.fft), and a forward bound of its rounding error.
+    The phase index (k n) mod N is exact in int64 (k n < 2^53 for N < 9e7); the angle 2 pi r / N carries <= 2 roundings, cos / sin are accurate to
+    an ulp: every term is off by <= 16 u |x[n]|; NumPy's pairwise sum (blocks of 128) adds <= (128 + log2 N) u sum|x[n]|."""
+    N = len(x)
+    n = np.arange(N, dtype=np.int64)
+    out = np.zeros(len(bins), dtype=complex)
+    for i, k in enumerate(bins):
+        th = (2.0 * np.pi / N) * ((int(k) * n) % N).astype(float)
+        out[i] = np.sum(x * np.cos(th)) - 1j * np.sum(x * np.sin(th))
+    return out, 256.0 * U * float(np.sum(np.abs(x)))
+
+
+def spread_bins(N: int, consts: List[int], rng: np.random.Generator, n_random: int = 3) -> List[int]:
+    """bins spread over the whole spectrum: both ends, both sides of the middle, around every mined constant and its mirror, a few random ones"""
+    b = [N - 1, (N - 1) // 2, N // 2 + 1, 1, 0, N // 2, N - 2]
+    for c in consts:
+        if 0 < c < N:
+            b += [c, N - c, (N // c) * c + 1]
+    b += [int(v) for v in rng.integers(0, N, size=n_random)]
+    out: List[int] = []
+    for k in b:
+        if 0 <= k < N and k not in out:
+            out.append(int(k))
+    # cost is O(N) per bin: 16 bins, 10 beyond 3e5 samples; the ends, the middle and the first mined constants are kept
+    return out[:10 if N > 300000 else 16]
+
+
+def _fft_predicate(P: C.Part, c: Dict[str, Any], f_in: np.ndarray, keep: np.ndarray, rng, rep: Dict[str, Any], tag: str = "") -> Optional[np.ndarray]:
+    """one call of the real fftnoise on f_in + everything C18 says about its result; returns the series (None after a violation)"""
     noise = _noise()
     N = c["N"]
-    f = np.asarray(c["f"])
-    f_in = np.array(f.real if c["dtype"] == "float" else f, dtype=(float if c["dtype"] == "float" else complex), copy=True)
+    try:
+        x = noise.fftnoise(f_in, rng=rng)
+    except Exception as ex:
+        _viol(P, f"fftnoise{tag} raised {ex!r} for a length-{N} spectrum ({c['dtype']})", {"sub": "fftnoise-raises", "parity": N % 2}, rep)
+        return None
+    if not (isinstance(x, np.ndarray) and x.ndim == 1 and x.shape[0] == N and np.isrealobj(x) and x.dtype.kind == "f"):
+        _viol(P, f"fftnoise{tag}: result is not a real float array of length {N}: type={type(x).__name__} dtype={getattr(x, 'dtype', None)} shape={getattr(x, 'shape', None)}",
+              {"sub": "fftnoise-real"}, rep)
+        return None
+    if not np.array_equal(keep.view(np.uint8), f_in.view(np.uint8)):        # bit pattern of the caller's array
+        _viol(P, f"fftnoise{tag} modified its input spectrum (N={N}, dtype={c['dtype']})", {"sub": "fftnoise-mutates-input"}, rep)
+    Np = (N - 1) // 2
+    mag = prescribed_magnitudes(keep)
+    X = np.fft.fft(x)
+    tol = fft_tol(N, float(np.linalg.norm(mag)))
+    d = np.abs(np.abs(X) - mag)
+    if not np.all(d <= tol):
+        k = int(np.argmax(d))
+        where = "dc" if k == 0 else "nyquist" if (N % 2 == 0 and k == N // 2) else "positive" if k <= Np else "mirror"
+        _viol(P, f"fftnoise{tag} N={N}: |DFT(x)[{k}]| = {float(abs(X[k]))!r}, prescribed magnitude {float(mag[k])!r} ({where} bin; tol {tol:.3g})",
+              {"sub": "fftnoise-magnitude", "bin": where, "parity": N % 2, "long": bool(N > 4096)}, rep)
+        return None
+    return x
+
+
+def check_fftnoise(P: C.Part, c: Dict[str, Any], consts: Optional[List[int]] = None) -> None:
+    N = c["N"]
+    f_in = fft_input(c)
     keep = f_in.copy()
     rng = None if c["rng_none"] else np.random.default_rng(c["seed"])
     P.cases += 1
@@ -600,36 +987,33 @@ def check_fftnoise(P: C.Part, c: Dict[str, Any]) -> None:
     if c["rng_none"]:
         P.hit("fft:rng=None")
     rep = fft_dump(c)
-    try:
-        x = noise.fftnoise(f_in, rng=rng)
-    except Exception as ex:
-        _viol(P, f"fftnoise raised {ex!r} for a length-{N} spectrum ({c['dtype']})", {"sub": "fftnoise-raises", "parity": N % 2}, rep)
-        return
     if N >= 3 and np.any(keep != 0):
         P.nontrivial.add(("fft", N, c["kind"]))
-    if not (isinstance(x, np.ndarray) and x.ndim == 1 and x.shape[0] == N and np.isrealobj(x) and x.dtype.kind == "f"):
-        _viol(P, f"fftnoise: result is not a real float array of length {N}: type={type(x).__name__} dtype={getattr(x, 'dtype', None)} shape={getattr(x, 'shape', None)}",
-              {"sub": "fftnoise-real"}, rep)
+    x = _fft_predicate(P, c, f_in, keep, rng, rep)
+    if x is None:
         return
-    if not (keep.tobytes() == f_in.tobytes()):
-        _viol(P, f"fftnoise modified its input spectrum (N={N}, dtype={c['dtype']})", {"sub": "fftnoise-mutates-input"}, rep)
-    Np = (N - 1) // 2
-    mag = np.zeros(N)
-    mag[0] = abs(keep[0].real)
-    mag[1:Np + 1] = np.abs(keep[1:Np + 1])
-    for k in range(1, Np + 1):
-        mag[N - k] = abs(keep[k])
-    if N % 2 == 0:
-        mag[N // 2] = abs(keep[N // 2].real)
-    X = np.fft.fft(x)
-    tol = fft_tol(N, float(np.linalg.norm(mag)))
-    d = np.abs(np.abs(X) - mag)
-    if not np.all(d <= tol):
-        k = int(np.argmax(d))
-        where = "dc" if k == 0 else "nyquist" if (N % 2 == 0 and k == N // 2) else "positive" if k <= Np else "mirror"
-        _viol(P, f"fftnoise N={N}: |DFT(x)[{k}]| = {float(abs(X[k]))!r}, prescribed magnitude {float(mag[k])!r} ({where} bin; tol {tol:.3g})",
-              {"sub": "fftnoise-magnitude", "bin": where, "parity": N % 2}, rep)
-        return
+    if N > 4096:
+        # long spectra: a handful of bins spread over the whole spectrum (first, last, both sides of the middle, around the mined constants and
+        # their mirrors) once more from the DEFINITION of the DFT, so that the verdict does not rest on np.fft.fft alone
+        P.hit("fft:long")
+        P.hit("fft:long:" + ("prime" if _is_prime(N) else "pow2" if N & (N - 1) == 0 else "odd" if N % 2 else "even"))
+        bins = spread_bins(N, consts or [], np.random.default_rng([c["seed"], N]))
+        Xd, err = direct_dft(x, bins)
+        mag = prescribed_magnitudes(keep)
+        tol = fft_tol(N, float(np.linalg.norm(mag))) + err
+        P.cases += len(bins)
+        P.hit("fft:long:direct-dft-bins", len(bins))
+        dd = np.abs(np.abs(Xd) - mag[bins])
+        if not np.all(dd <= tol):
+            j = int(np.argmax(dd))
+            _viol(P, f"fftnoise N={N}: DFT of the series at bin {bins[j]} evaluated from the definition has magnitude {float(abs(Xd[j]))!r}, prescribed {float(mag[bins[j]])!r} (tol {tol:.3g})",
+                  {"sub": "fftnoise-magnitude", "bin": "direct", "parity": N % 2, "long": True}, rep)
+            return
+    if c.get("again"):
+        # the SAME input array a second time, with other phases: the prescription is a property of every call, the input is still untouched
+        P.cases += 1
+        P.hit("fft:second-call-same-array")
+        _fft_predicate(P, c, f_in, keep, np.random.default_rng(c["seed"] + 1), rep, tag=" (second call on the same input array)")
 
 
 def band_dump(c):
@@ -725,6 +1109,69 @@ def check_white(P: C.Part, c: Dict[str, Any]) -> None:
     P.cases += 1
     if not abs(float(g1.rms) ** 2 - fs) <= 8 * U * fs:
         _viol(P, f"white_noise(fs={fs!r}) with default psd: rms^2 = {float(g1.rms) ** 2!r}, expected fs", {"sub": "white-rms-default"}, rep)
+
+
+WHITE_PSD_EXT = [1e-100, 1e-30, 1e-12, 1e-3, 1.0, 1e6, 1e12, 1e30, 1e100]
+WHITE_FS_EXT = [1e-3, 1.0, 44100.0, 1e9]
+
+
+def var_band(m: int) -> float:
+    """6 sigma of the variance estimator of m independent Gaussian samples, relative to the variance (+ the mean-removal term): same formula as check_white"""
+    return 6.0 * math.sqrt(2.0 / m) + 6.0 ** 2 / m
+
+
+def check_white_ext(P: C.Part, c: Dict[str, Any]) -> None:
+    """'white noise has variance psd*fs' at the ends of the (psd, fs) range, through every call form of the constructor, and for LONG requests:
+    the sample variance of every eighth of the series and of its last `tail` samples on its own (a block-wise generator that loses the scale
+    behind some block boundary keeps the overall variance nearly right), each against its own 6-sigma band."""
+    noise = _noise()
+    fs, psd, n, form = c["fs"], c["psd"], int(c["n"]), c.get("form", "pos")
+    rep = {"kind": "white-ext", **c}
+    P.cases += 1
+    P.hit(f"white-ext:form={form}")
+    try:
+        if form == "kw":
+            g = noise.white_noise(f_sample=fs, psd=psd, seed=c["seed"])
+        elif form == "mixed":
+            g = noise.white_noise(fs, psd=psd, seed=c["seed"])
+        elif form == "allpos":
+            g = noise.white_noise(fs, psd, c["seed"])
+        elif form == "noseed":
+            g = noise.white_noise(fs, psd)
+        else:
+            g = noise.white_noise(fs, psd, seed=c["seed"])
+    except Exception as ex:
+        _viol(P, f"white_noise(fs={fs!r}, psd={psd!r}) [call form {form}] raised {ex!r}", {"sub": "white-construct", "form": form}, rep)
+        return
+    P.nontrivial.add(("white-ext", round(math.log10(fs)), round(math.log10(psd)), form, n > 65536))
+    target = psd * fs
+    v = float(g.rms) ** 2
+    if not (abs(v - target) <= 8 * U * target and float(g.fs) == fs):
+        _viol(P, f"white_noise(fs={fs!r}, psd={psd!r}) [call form {form}]: rms^2 = {v!r}, expected psd*fs = {target!r}", {"sub": "white-rms", "form": form, "extreme": True}, rep)
+        return
+    if form == "noseed":                               # unseeded: only the deterministic part (a statistical verdict has to be reproducible)
+        return
+    x = np.asarray(g.get_series(n), dtype=float)
+    P.cases += 1
+    if x.shape != (n,):
+        _viol(P, f"white_noise.get_series({n}) returned shape {x.shape}", {"sub": "white-length"}, rep)
+        return
+    parts: List[Tuple[str, int, int]] = [("all", 0, n)]
+    if n >= 16000:
+        e = [int(round(j * n / 8.0)) for j in range(9)]
+        parts += [(f"eighth {j + 1}", e[j], e[j + 1]) for j in range(8)]
+        tail = int(c.get("tail", 2000))
+        parts.append((f"last {tail} samples", n - tail, n))
+    xs = x / float(math.sqrt(target))                  # unit variance expected; avoids squaring 1e+-65 sized samples
+    for nm, a, b in parts:
+        m = b - a
+        sv = float(np.var(xs[a:b]))
+        P.cases += 1
+        P.hit("white-ext:variance-windows")
+        if not abs(sv - 1.0) <= var_band(m):
+            _viol(P, f"white_noise(fs={fs!r}, psd={psd!r}, seed={c['seed']}).get_series({n}): sample variance of samples [{a}, {b}) ({nm}) = {sv * target!r}, psd*fs = {target!r} "
+                     f"(ratio {sv:.5f}, 6-sigma band +-{var_band(m):.4f})", {"sub": "white-variance", "window": nm.split()[0], "long": bool(n > 65536)}, rep)
+            return
 
 
 # ------------------------------------------------------------------------------------------------ call histories
@@ -924,7 +1371,8 @@ def history_case(rng: np.random.Generator, fam: Optional[int] = None) -> Dict[st
     fmax = float(10.0 ** rng.uniform(-1.0, 4.0))
     fmin = fmax / float(10.0 ** rng.uniform(0.3, 3.5))
     alpha = [1.0, 1.5, 2.0, 0.5, 0.01, float(rng.uniform(0.01, 2.0)), float(rng.uniform(0.01, 2.0))][int(rng.integers(0, 7))]
-    fs0 = fmax * [2.0, float(rng.uniform(2.0, 8.0)), float(10.0 ** rng.uniform(0.3, 1.5))][int(rng.integers(0, 3))]
+    # (max: 10^0.3 = 1.9953 < 2 -- without it one history in ~3500 asked for fs < 2 fmax, which the constructor rightly refuses)
+    fs0 = fmax * max(2.0, [2.0, float(rng.uniform(2.0, 8.0)), float(10.0 ** rng.uniform(0.3, 1.5))][int(rng.integers(0, 3))])
     return history_from(rng, fam, fs0, fmin, fmax, alpha)
 
 
@@ -1024,6 +1472,60 @@ def check_history(P: C.Part, h: Dict[str, Any], fresh: Optional[Dict[str, Any]] 
                 _viol(P, f"{pre}white_noise(fs={s['fs']!r}, psd={s['psd']!r}): rms^2 = {v!r}, expected psd*fs = {s['psd'] * s['fs']!r}", {"sub": "white-rms", "history": True}, mrep)
 
 
+# ------------------------------------------------------------------------------------------------ construction forms
+def check_form(P: C.Part, s: Dict[str, Any], nfreq: int = 64, impulse_max: int = 20000) -> None:
+    """one generator constructed through the call form `s` (see form_case):
+       alpha / pink: ALL predicates of check_alpha on the object as constructed (level via freqz first), whether or not the constructor settled the filter;
+       white: rms^2 = psd fs;
+       every class: its design quantities equal those of the plain form (positional floats, init_filter=False, seed=0) built right after it -- the same code
+       path on the same numbers (integers convert exactly), so agreement is demanded at the 4-ulp level as in the call histories."""
+    cls = s["cls"]
+    rep = dict(s)
+    settle = cls != "white" and s["init"] is not False
+    P.cases += 1
+    P.hit(f"form:{cls}:init={s['init']}")
+    P.hit(f"form:call={s['call']}")
+    P.hit(f"form:seed={'int' if isinstance(s['seed'], int) else s['seed']}")
+    P.hit(f"form:num={s['num']}")
+    pre = f"{cls}_noise [{s['call']} call, init_filter {'default' if s['init'] == 'omit' else s['init']}, seed {'default' if s['seed'] == 'omit' else s['seed']}, {s['num']} arguments]: "
+    try:
+        g = form_build(s)
+    except Exception as ex:
+        _viol(P, f"{pre}(fs={s['fs']}, fmin={s['fmin']}, fmax={s['fmax']}, alpha={s['alpha']}, psd={s['psd']}) raised {ex!r} for valid parameters",
+              {"sub": "form-construct", "cls": cls, "call": s["call"]}, rep)
+        return
+    P.nontrivial.add(("form", cls, s["call"], str(s["init"]), "int" if isinstance(s["seed"], int) else str(s["seed"]), s["num"]))
+    plain = {"cls": cls, "fs": float(s["fs"]), "fmin": float(s["fmin"]), "fmax": float(s["fmax"]), "alpha": float(s["alpha"]), "psd": float(s["psd"]), "init": False, "seed": 0}
+    try:
+        ref = hist_describe(hist_build(plain), cls)
+    except Exception as ex:
+        _viol(P, f"{pre}the plain form {cls}(fs={s['fs']}, fmin={s['fmin']}, fmax={s['fmax']}, alpha={s['alpha']}, init_filter=False, seed=0) raised {ex!r}",
+              {"sub": "form-construct", "cls": cls, "call": "plain"}, rep)
+        return
+    now = hist_describe(g, cls)
+    for nm in HIST_QUANT[cls]:
+        if nm not in ref or nm not in now:
+            continue
+        P.cases += 1
+        a = np.array([float.fromhex(v) for v in now[nm]["hex"]])
+        b = np.array([float.fromhex(v) for v in ref[nm]["hex"]])
+        if now[nm]["shape"] != ref[nm]["shape"] or not np.all(np.abs(a - b) <= 4 * U * np.maximum(1.0, np.abs(b))):
+            j = int(np.argmax(np.abs(a - b))) if now[nm]["shape"] == ref[nm]["shape"] else -1
+            _viol(P, f"{pre}(fs={s['fs']}, fmin={s['fmin']}, fmax={s['fmax']}, alpha={s['alpha']}): {nm}{'' if j < 0 else '[%d]' % j} = "
+                     f"{'shape %s' % now[nm]['shape'] if j < 0 else repr(float(a[j]))}, the same generator built as {cls}(..., init_filter=False, seed=0) has "
+                     f"{'shape %s' % ref[nm]['shape'] if j < 0 else repr(float(b[j]))}", {"sub": "form-design", "what": nm, "cls": cls, "settled": settle}, rep)
+            break
+    if cls in ("alpha", "pink"):
+        check_alpha(P, {"fs": float(s["fs"]), "fmin": float(s["fmin"]), "fmax": float(s["fmax"]), "alpha": float(s["alpha"]), "pink": cls == "pink"},
+                    nfreq=nfreq, impulse_max=impulse_max, g=g, rep=rep, pre=pre, pristine=not settle)
+    elif cls == "white":
+        P.cases += 1
+        v = float(g.rms) ** 2
+        t = float(s["psd"]) * float(s["fs"])
+        if not (abs(v - t) <= 8 * U * t and float(g.fs) == float(s["fs"])):
+            _viol(P, f"{pre}white_noise(fs={s['fs']!r}, psd={s['psd']!r}): rms^2 = {v!r}, expected psd*fs = {t!r}", {"sub": "white-rms", "form": s["call"]}, rep)
+
+
 # ------------------------------------------------------------------------------------------------ oracle
 FFT_SIZES_SMALL = list(range(2, 66))
 
@@ -1073,12 +1575,35 @@ def oracle(ctx, intensive: bool = False, hints=()) -> C.Part:
                    f"{getattr(P, 'worst_ripple_int', 0.0):.4f} dB two section pitches inside the corners (allowed: 1.5 x RIPPLE_TABLE, "
                    f"i.e. {ripple_tol_db(2.0, False):.2f} / {ripple_tol_db(2.0, True):.2f} dB at alpha = 2, {ripple_tol_db(1.0, False):.2f} / {ripple_tol_db(1.0, True):.2f} dB at alpha = 1)")
 
+    # --- alpha filter at the ENDS of the parameter ranges (own child stream: the draws above and below are what they were before this was added)
+    wide = bool(intensive or ctx.thorough)
+    r_ext = np.random.default_rng([int(ctx.seed), 1801])
+    for i, c in enumerate(alpha_extreme_cases(r_ext, n_extra=80 * mult, full=ctx.thorough)):
+        if ctx.time_left() < 40 or len(P.violations) >= 12:
+            P.notes.append("alpha extremes: stopped early (time budget or enough violations)")
+            break
+        P.hit("alpha:extreme-grid")
+        check_alpha(P, c, nfreq=ctx.scale(64, 128), impulse_max=ctx.scale(20000, 60000))
+        if i == 1:
+            P.sample({"op": "alpha-extreme", **alpha_dump(c)})
+
+    # --- construction forms: the four classes x call form x init_filter form x seed form x numeric type
+    r_form = np.random.default_rng([int(ctx.seed), 1802])
+    for i in range(ctx.scale(60, 480) * mult):
+        if ctx.time_left() < 40 or len(P.violations) >= 16:
+            P.notes.append("forms: stopped early (time budget or enough violations)")
+            break
+        s = form_case(r_form, i + 7 * int(ctx.seed))
+        check_form(P, s, nfreq=ctx.scale(64, 128), impulse_max=ctx.scale(20000, 60000))
+        if i == 3:
+            P.sample({"op": "form", **s})
+
     # --- fftnoise
     sizes = [2, 3, 2, 3, 4, 5] + FFT_SIZES_SMALL + [2 ** k for k in range(7, ctx.scale(11, 13))]
     fcases = [fft_case(np.random.default_rng(1000 + k), N, kind=k % 7) for k, N in enumerate([2, 3, 4, 5, 8, 9, 64, 65, 1024])]      # fixed corpus
     for h in hints or ():
         cc = h.get("case") if isinstance(h, dict) else None
-        if isinstance(cc, dict) and cc.get("kind") == "fftnoise":
+        if isinstance(cc, dict) and cc.get("kind") == "fftnoise" and "f" in cc:
             fcases.append({"N": cc["N"], "kind": cc.get("fkind", 0), "dtype": cc.get("dtype", "complex"), "f": cx_load(cc["f"]), "seed": cc["seed"], "rng_none": False})
     for rep_i in range(ctx.scale(4, 16) * mult):
         for N in sizes:
@@ -1092,6 +1617,33 @@ def oracle(ctx, intensive: bool = False, hints=()) -> C.Part:
         check_fftnoise(P, c)
         if i == 5:
             P.sample({"op": "fftnoise", "N": c["N"], "kind": c["kind"], "dtype": c["dtype"], "seed": c["seed"], "f_head": cx_dump(c["f"][:3])})
+
+    # --- fftnoise, LONG and awkward lengths: around every integer constant of the current noise.py, 2^k, 2^k +- 1, primes, 70 001, 1 100 003; every input kind
+    # (incl. integer and single-precision magnitude vectors) on every run; the whole DFT is compared, a spread of bins once more from the definition
+    consts = mined_constants()
+    cap = 4_400_000 if wide else 1_300_000
+    r_long = np.random.default_rng([int(ctx.seed), 1803])
+    P.notes.append(f"integer constants mined from speckit/noise.py: {consts}")
+    big = list(LONG_SIZES_BIG) if wide else LONG_SIZES_BIG[:2] + [LONG_SIZES_BIG[2 + int(ctx.seed) % (len(LONG_SIZES_BIG) - 2)]]
+    if ctx.thorough:
+        big.append(2 ** 21 + 3)
+    awkward = [next_prime(int(r_long.integers(4097, 60000))), 2 * next_prime(int(r_long.integers(4097, 60000))), int(r_long.integers(4097, 300000)) | 1,
+               int(r_long.integers(2049, 150000)) * 2, 3 * 2 ** int(r_long.integers(11, 16)) + 1][:5 if wide else 3]
+    # most telling first (the stream has a time cap): around the mined constants, 70 001, 1 100 003, then the rest
+    lsizes = size_probes(consts, cap) + LONG_SIZES_FIXED[:1] + big[:1] + LONG_SIZES_FIXED[1:] + awkward + big[1:] + (LONG_SIZES_WIDE if wide else [])
+    LONG_KINDS = [0, 4, 1, 3, 5, 2, 7, 8]
+    t_long = ctx.time_left()
+    long_reps = 2 if intensive else 1
+    long_cap_s = ctx.scale(40 if intensive else 15, 150)
+    for rep_i in range(long_reps):
+        for j, N in enumerate(lsizes):
+            if ctx.time_left() < 25 or len(P.violations) >= 20 or (t_long - ctx.time_left()) > long_cap_s:
+                P.notes.append(f"fftnoise long: stopped early at size index {j} of {len(lsizes)}")
+                break
+            c = fft_case_from_seed(int(r_long.integers(0, 2 ** 31)), N, LONG_KINDS[(j + rep_i + int(ctx.seed)) % len(LONG_KINDS)])
+            c["again"] = bool(j % 3 == 0 and N <= 300000)
+            check_fftnoise(P, c, consts)
+    P.notes.append(f"fftnoise long / awkward lengths: sizes {lsizes}")
 
     # --- band_limited_noise
     bcases = [dict(c) for c in BAND_CORPUS]
@@ -1111,11 +1663,47 @@ def oracle(ctx, intensive: bool = False, hints=()) -> C.Part:
         if i == 2:
             P.sample({"op": "band_limited_noise", **band_dump(c)})
 
+    # --- band_limited_noise, LONG and awkward lengths with the band in every part of the spectrum (last bins, around the mined constants, behind the last whole block)
+    r_band = np.random.default_rng([int(ctx.seed), 1804])
+    bl_sizes = [n for n in size_probes(consts, cap) if n >= 16] + [70001] + big[:1] + [262147, 65537, 65536, 131071, 100000] + awkward[:2] + big[1:2] + (big[2:] if wide else [])
+    t_bl = ctx.time_left()
+    for rep_i in range(long_reps):
+        for j, N in enumerate(bl_sizes):
+            if ctx.time_left() < 15 or len(P.violations) >= 28 or (t_bl - ctx.time_left()) > long_cap_s:
+                P.notes.append(f"band long: stopped early at size index {j} of {len(bl_sizes)}")
+                break
+            c = band_long_case(r_band, N, j + 5 * rep_i + int(ctx.seed), consts)
+            P.hit("band:long" if N > 4096 else "band:around-mined-constant")
+            check_band(P, c)
+            if N <= 10000:                          # cheap: every edge placement at every short probe size, every run
+                for md in range(BAND_LONG_MODES):
+                    check_band(P, band_long_case(r_band, N, md, consts))
+            if N > 500000:                          # the longest records also with the band covering nearly everything (a narrow band shows leaks, a wide one gaps)
+                check_band(P, band_long_case(r_band, N, 11, consts))
+            if j % 4 == 0 and N <= 300000:              # the neighbouring length right after it, same band in Hz
+                check_band(P, dict(c, N=N + 1, exact=False, seed=int(r_band.integers(0, 2 ** 31))))
+
     # --- white noise
     for i in range(ctx.scale(6, 40) * mult):
         if ctx.time_left() < 8:
             break
         check_white(P, white_case(rng, ctx.scale(200000, 1000000)))
+    # extreme psd / fs through every call form, and long requests checked window by window (incl. the last samples)
+    r_w = np.random.default_rng([int(ctx.seed), 1805])
+    forms = ["pos", "kw", "mixed", "allpos", "noseed"]
+    k = int(ctx.seed)
+    for psd in WHITE_PSD_EXT:
+        for fs in WHITE_FS_EXT:
+            if ctx.time_left() < 6:
+                break
+            k += 1
+            check_white_ext(P, {"fs": fs, "psd": psd, "seed": int(r_w.integers(0, 2 ** 31)), "n": 20000, "form": forms[k % len(forms)]})
+    for n in [v for v in size_probes(consts, 2_200_000) if v >= 16000] + [16384 + 1, 65536, 65537, 70001, 2 ** 17 + 17, 1100003] + ([2 ** 21 + 3, 4_000_037] if wide else []):
+        if ctx.time_left() < 6:
+            break
+        k += 1
+        check_white_ext(P, {"fs": float(10.0 ** r_w.uniform(-3, 9)), "psd": float(10.0 ** r_w.uniform(-12, 12)), "seed": int(r_w.integers(0, 2 ** 31)), "n": int(n),
+                            "form": forms[k % 4], "tail": int([1000, 2000, 4096][k % 3])})
     return P
 
 
@@ -1600,8 +2188,17 @@ def replay(ctx, data) -> C.Part:
         k = r.get("kind")
         if k == "alpha":
             check_alpha(P, {"fs": r["fs"], "fmin": r["fmin"], "fmax": r["fmax"], "alpha": r["alpha"], "pink": r.get("pink", False)}, nfreq=400, impulse_max=200000)
+        elif k == "fftnoise" and "f" not in r:            # long spectrum: regenerated from (gseed, N, kind)
+            c = fft_case_from_seed(r["gseed"], r["N"], r.get("fkind", 0))
+            c["again"] = bool(r.get("again"))
+            check_fftnoise(P, c, mined_constants())
         elif k == "fftnoise":
-            check_fftnoise(P, {"N": r["N"], "kind": r.get("fkind", 0), "dtype": r["dtype"], "f": cx_load(r["f"]), "seed": r["seed"], "rng_none": r.get("rng_none", False)})
+            check_fftnoise(P, {"N": r["N"], "kind": r.get("fkind", 0), "dtype": r["dtype"], "f": cx_load(r["f"]), "seed": r["seed"], "rng_none": r.get("rng_none", False),
+                               "again": bool(r.get("again"))}, mined_constants())
+        elif k == "form":
+            check_form(P, {k2: r[k2] for k2 in ("kind", "cls", "call", "init", "seed", "num", "fs", "fmin", "fmax", "alpha", "psd")}, nfreq=200, impulse_max=60000)
+        elif k == "white-ext":
+            check_white_ext(P, {k2: r[k2] for k2 in ("fs", "psd", "seed", "n", "form", "tail") if k2 in r})
         elif k == "band":
             check_band(P, {k2: r[k2] for k2 in ("N", "fs", "lo", "hi", "exact", "edge_mode", "seed", "rng_none")})
         elif k == "white":
